@@ -552,12 +552,15 @@ def rule_tau_star(ctx):
             G = ("nth", P("$globals"), ("ctor", "Range", (("end", ("call", "Head::arity", (("place", "$r.head"),))), ("start", ("lit", 0)))))
             HT = ("call", "Option::unwrap", (("call", "Head::terms", (("place", "$r.head"),)),))
             idx = ("idx", HT)
-            ok_v = bind["Vi"] == ("nth", G, idx) and bind["Vall"] == ("at", G)
+            # V_i is globals[0..arity][i] either by indexing with the position of the head term, or by walking globals[0..arity] itself (as many steps
+            # as there are head terms: DISPATCH:Head::arity)
+            walked = bind["Vi"] == ("at", G) and arity_is_term_count(fx)
+            ok_v = (bind["Vi"] == ("nth", G, idx) or walked) and bind["Vall"] == ("at", G)
             ctx.add("TPL", "tau_star:fo:%s:V" % h, ok_v, ctx.site(b), "V_i = globals[0..arity][i] for the i-th head term, and all of globals[0..arity] are bound: V_i = %s, bound = %s" % (rn(bind["Vi"]), rn(bind["Vall"])))
             ok_t = bind["terms"] == HT
             vs = bind["vs"]
-            ok_vs = vs in (("upd", ("call", "Vec::new", ()), "push", (("ctor", "Variable", (("name", ("nth", G, idx)), ("sort", ("ctor", "Sort::General", ())))),)),
-                           ("upd", ("acc", ("call", "Vec::new", ())), "push", (("ctor", "Variable", (("name", ("nth", G, idx)), ("sort", ("ctor", "Sort::General", ())))),)))
+            velem = ftpl._comp(vs)
+            ok_vs = velem == ("ctor", "Variable", (("name", bind["Vi"]), ("sort", ("ctor", "Sort::General", ())))) and ok_v
             ctx.add("TPL", "tau_star:fo:%s:valtz-args" % h, ok_t and ok_vs, ctx.site(b), "val_t(V) pairs the head terms with V in order: terms = %s, variables = %s" % (rn(bind["terms"]), rn(vs)))
             okp = bind["p"] == ("place", "$sym") or "Head::predicate" in key(bind["p"])
             ctx.add("TPL", "tau_star:fo:%s:predicate" % h, okp and key(bind["p"]).count("symbol") >= 1, ctx.site(b), "the head atom keeps the predicate symbol of the rule head: %s" % rn(bind["p"]))
@@ -607,6 +610,7 @@ def rule_tau_star(ctx):
                 r_ = a[-1]
                 got[vname] = "Some" if (r_[0] == "ctor" and r_[1].endswith("Some")) else ("None" if r_[0] == "ctor" and r_[1].endswith("None") else "?")
         ctx.add("DISPATCH", "Head::" + meth, got == ref, ctx.site(hb[0]), "Head::%s is Some for basic and choice heads, None for constraints: %s" % (meth, got))
+    ctx.add("DISPATCH", "Head::arity", arity_is_term_count(fx), "src/syntax_tree/asp/mini_gringo.rs", "Head::arity is the number of the terms Head::terms hands out (so walking globals[0..arity] and walking the head terms take the same number of steps)")
     # the program level
     b = body_of(fx, "tau_star")
     ev = sym.Eval(fx, inline_depth=0)
@@ -614,6 +618,34 @@ def rule_tau_star(ctx):
     elem = ("call", "tau_star::tau_star_rule", (("at", ("place", "$p.rules")), ("call", "tau_star::choose_fresh_global_variables", (P("$p"),))))
     fm = dict(v[2]).get("formulas") if v[0] == "ctor" and v[1] == "Theory" else None
     ctx.add("TPL", "tau_star:program", fm is not None and ftpl._comp(fm) == elem, ctx.site(b), "the theory has one tau_star_rule formula per rule, in order, with the globals chosen for this very program: %s" % rn(ftpl.NF().gen(v)))
+
+
+def arity_is_term_count(fx):
+    """Head::arity(h) == Head::terms(h).unwrap().len() for basic and choice heads: both read the same `terms` field of the head atom"""
+    A = "syntax_tree::asp::mini_gringo::"
+    vals = {}
+    for meth in ("arity", "terms"):
+        hb = [x for x in fx.body_list if x["def_path"] == A + "Head::" + meth]
+        if len(hb) != 1:
+            return False
+        hv = sym.Eval(fx, inline_depth=0).function(hb[0])
+        if hv[0] != "match" or hv[1] != ("param", "self"):
+            return False
+        for a in hv[2]:
+            if len(a) != 2:
+                return False
+            for alt in a[0].split(" | "):
+                vals[(meth, alt.split("(")[0])] = a[1]
+    for k in ("Basic", "Choice"):
+        fld = ("fieldof", ("proj", ("param", "self"), (("Head::" + k, "0"),)), "terms")
+        ar, tm = vals.get(("arity", "Head::" + k)), vals.get(("terms", "Head::" + k))
+        if ar != ("call", "Vec::len", (fld,)):
+            return False
+        while isinstance(tm, tuple) and tm and tm[0] in ("ref", "deref", "borrow"):
+            tm = tm[1]
+        if not (isinstance(tm, tuple) and tm[0] == "ctor" and tm[1].endswith("Some") and fld in [x[1] if isinstance(x, tuple) and len(x) == 2 and isinstance(x[0], str) else x for x in tm[2]]):
+            return False
+    return True
 
 
 def select_head(f, h):
